@@ -94,7 +94,7 @@ def handle : List String → String
         match evalTemplate (oracles tb) q i c t with
         | .ok v =>
           let out := js (normalise v)
-          if out.toList.contains sentinel then "unsupported" else "ok\t" ++ out
+          if (out.splitOn "\\ue000").length > 1 then "unsupported" else "ok\t" ++ out
         | .error e => "err\t" ++ e.name
     | _, _, _, _ => "unsupported"
   | ["parse", text] =>
